@@ -132,6 +132,16 @@ def run(rep: Report, repo: Repo):
         rep.violate('C16.forward', mod, cyc, calls[0] if calls else 'self.c_prop()', 'cycle must forward its inject_cb to c_prop', node=calls[0] if calls else cyc)
 
 
+def depends(rep, repo):
+    """"Overwriting a signal is equivalent to driving it with the overwritten values - every downstream result reflects it and nothing
+    else does" rests on every op reading exactly the lines wired to its node's input pins (interface ops: the PI/PPI slot): the operand
+    wiring rule of C01 is part of this check."""
+    from checks import c01
+    from kvstatic import simops
+    smod, init = simops.simops_init(repo)
+    c01.check_wiring(rep, smod, init, simops.op_sites(init))
+
+
 def thorough(rep, repo):
     """Thorough tier: the quick rules plus checker self-validation on the C16 slice of the mutation corpus."""
     from kvstatic import thorough as thorough_mod
